@@ -604,3 +604,69 @@ func otherSucc(b, s *ssa.BasicBlock) *ssa.BasicBlock {
 	}
 	return s
 }
+
+// R-value-passthrough: below the merge, a value is forwarded as it was read. A nil (or empty) value is a tombstone,
+// and only the layer that sees all tables — the merge iterator's reducer, or the caller of the stacked Get — may act on
+// it. A per-table iterator that skips nil values, or a stacked Get that moves on to an older table when the newest
+// answer is nil, lets the older table's stale value through.
+func ruleValuePassthrough(r *Report) {
+	const rule = "value-passthrough"
+	fns := []string{"sstables.SuperSSTableReader.Get", "sstables.SSTableIterator.Next", "sstables.SSTableFullScanIterator.Next", "sstables.SSTableMergeIteratorContext.Next"}
+	r.Rule(rule, len(fns), "the stacked point lookup and every per-table iterator return the value they obtained from the layer below without branching on it (no nil or length test of the value): tombstones travel up to the layer that sees all tables")
+	for _, k := range fns {
+		fn := r.NeedFunc(rule, k)
+		if fn == nil {
+			continue
+		}
+		// value sources: []byte results of calls (reader Get / ReadNextAt / ReadNext / iterator Next), except index 0 of a
+		// three-result Next (that is the key)
+		var vals []ssa.Value
+		eachInstr(fn, func(s Site) {
+			c, ok := s.Instr.(*ssa.Call)
+			if !ok {
+				return
+			}
+			tup, isT := c.Type().(*types.Tuple)
+			if !isT {
+				return
+			}
+			for _, rf := range *c.Referrers() {
+				ex, ok := rf.(*ssa.Extract)
+				if !ok {
+					continue
+				}
+				if sl, isS := ex.Type().Underlying().(*types.Slice); !isS || !types.Identical(sl.Elem(), types.Typ[types.Byte]) {
+					continue
+				}
+				if tup.Len() == 3 && ex.Index == 0 {
+					continue // key
+				}
+				vals = append(vals, ex)
+			}
+		})
+		key := rule + "/" + k
+		if len(vals) == 0 {
+			r.Missing(rule, key, "no value-producing call found")
+			continue
+		}
+		t := taintClosure(fn, vals, nil)
+		bad := ""
+		for _, b := range liveBlocks(fn) {
+			if v, _, _, _, _, ok := nilTest2(b); ok && t[v] {
+				bad = r.P.Pos(b.Instrs[len(b.Instrs)-1].(*ssa.If).Cond.Pos())
+			}
+		}
+		eachInstr(fn, func(s Site) {
+			if c, ok := s.Instr.(*ssa.Call); ok {
+				if bi, ok := c.Call.Value.(*ssa.Builtin); ok && bi.Name() == "len" && t[c.Call.Args[0]] {
+					bad = r.P.Pos(c.Pos())
+				}
+			}
+		})
+		if bad != "" {
+			r.Bad(rule, key, fn.Pos(), "the value obtained from the layer below is tested at "+bad+" before it is returned: a tombstone (nil value) of a newer table is skipped here, so an older table's value for the same key comes back")
+		} else {
+			r.OK(rule, key, fn.Pos(), fmt.Sprintf("%d value source(s), forwarded untested", len(vals)))
+		}
+	}
+}
